@@ -606,7 +606,7 @@ func (p *prover) edgeConds(pred, succ *ssa.BasicBlock) []condFact {
 			out = append(out, condFact{iff.Cond, false, iff})
 		}
 	}
-	return out
+	return expandConds(out)
 }
 
 // lowerBound computes a constant c with term >= c by induction over phis (least fixpoint), if any.
@@ -821,7 +821,7 @@ func (p *prover) factsAt(at ssa.Instruction, goal constraint, extra []constraint
 	var facts []constraint
 	facts = append(facts, p.assume...)
 	facts = append(facts, extra...)
-	for _, cf := range dominatingConds(at.Block()) {
+	for _, cf := range expandConds(dominatingConds(at.Block())) {
 		facts = append(facts, p.condConstraints(cf.Cond, cf.Val)...)
 	}
 	// conditions within the same block do not exist (one terminator per block)
